@@ -296,6 +296,26 @@ struct StageOut {
     info: Value,
 }
 
+/// Coverage corpus files (`cov-<stage>.json`: {"stage", "mode": "bytes", "tapes_hex": [...]}) hold the tapes a coverage-guided
+/// campaign kept because each reached code no earlier tape had reached; they are replayed like any other regression input.
+fn parse_multi(path: &Path) -> Option<Vec<(Mode, Vec<u32>, Option<String>)>> {
+    let s = std::fs::read_to_string(path).ok()?;
+    let v: Value = serde_json::from_str(&s).ok()?;
+    let list = v.get("tapes_hex")?.as_array()?;
+    let stage = v.get("stage").and_then(|m| m.as_str()).map(|s| s.to_string());
+    let mut out = vec![];
+    for h in list {
+        let h = h.as_str()?.as_bytes();
+        let mut tape = Vec::with_capacity(h.len() / 2);
+        for pair in h.chunks(2) {
+            let d = |c: u8| (c as char).to_digit(16).unwrap_or(0);
+            tape.push(d(pair[0]) * 16 + d(*pair.get(1).unwrap_or(&b'0')));
+        }
+        out.push((Mode::Bytes, tape, stage.clone()));
+    }
+    Some(out)
+}
+
 fn run_corpus(def: &PropDef, cfg: &RunCfg, listed: &BTreeSet<String>) -> (Stats, Vec<Violation>, Value) {
     let dir = cfg.verif_dir.join("corpus").join(def.id);
     let mut files: Vec<PathBuf> = std::fs::read_dir(&dir)
@@ -309,34 +329,52 @@ fn run_corpus(def: &PropDef, cfg: &RunCfg, listed: &BTreeSet<String>) -> (Stats,
     files.sort();
     let mut st = Stats::new(listed.clone());
     let mut viols = vec![];
+    let mut cases = 0u64;
+    let mut cov_cases = 0u64;
     for f in &files {
-        match parse_replay(f) {
-            Ok((mode, tape, stage)) => {
-                let exec = exec_for_stage(def, stage.as_deref());
-                st.evals(0);
-                if let Err(m) = run_case(exec, &tape, mode, &mut st) {
-                    let desc = describe_case(exec, &tape, mode, listed);
-                    viols.push(Violation {
-                        stage: stage.unwrap_or_else(|| "corpus".into()),
-                        mode,
-                        tape,
-                        message: m,
-                        desc,
-                        from_file: Some(f.clone()),
-                    });
+        let multi = parse_multi(f);
+        let is_cov = multi.is_some();
+        let items: Vec<Result<(Mode, Vec<u32>, Option<String>), String>> = match multi {
+            Some(v) => v.into_iter().map(Ok).collect(),
+            None => vec![parse_replay(f)],
+        };
+        for (k, item) in items.into_iter().enumerate() {
+            match item {
+                Ok((mode, tape, stage)) => {
+                    let exec = exec_for_stage(def, stage.as_deref());
+                    st.evals(0);
+                    cases += 1;
+                    if is_cov {
+                        cov_cases += 1;
+                    }
+                    if let Err(m) = run_case(exec, &tape, mode, &mut st) {
+                        let desc = describe_case(exec, &tape, mode, listed);
+                        viols.push(Violation {
+                            stage: stage.unwrap_or_else(|| "corpus".into()),
+                            mode,
+                            tape,
+                            message: if is_cov { format!("[coverage corpus {} #{}] {}", f.file_name().unwrap().to_string_lossy(), k, m) } else { m },
+                            desc,
+                            // a single-case file is its own replay file; a case of a multi-tape file gets one written
+                            from_file: if is_cov { None } else { Some(f.clone()) },
+                        });
+                        if is_cov {
+                            break;
+                        }
+                    }
                 }
+                Err(e) => viols.push(Violation {
+                    stage: "corpus".into(),
+                    mode: Mode::Scaled,
+                    tape: vec![],
+                    message: e,
+                    desc: None,
+                    from_file: Some(f.clone()),
+                }),
             }
-            Err(e) => viols.push(Violation {
-                stage: "corpus".into(),
-                mode: Mode::Scaled,
-                tape: vec![],
-                message: e,
-                desc: None,
-                from_file: Some(f.clone()),
-            }),
         }
     }
-    let info = json!({"stage": "corpus", "files": files.len(), "evaluations": st.evaluations});
+    let info = json!({"stage": "corpus", "files": files.len(), "cases": cases, "of_which_coverage_corpus_tapes": cov_cases, "evaluations": st.evaluations});
     (st, viols, info)
 }
 
@@ -584,10 +622,14 @@ fn run_tapefuzz(def: &PropDef, cfg: &RunCfg, listed: &BTreeSet<String>, total: &
         let mut n_cov = 0;
         if let Ok(rd) = std::fs::read_dir(&cov_dir) {
             for e in rd.flatten() {
-                if let Ok((Mode::Bytes, tape, stage)) = parse_replay(&e.path()) {
-                    if stage.as_deref() == Some(r.name) {
+                let items = match parse_multi(&e.path()) {
+                    Some(v) => v,
+                    None => parse_replay(&e.path()).map(|x| vec![x]).unwrap_or_default(),
+                };
+                for (mode, tape, stage) in items {
+                    if mode == Mode::Bytes && stage.as_deref() == Some(r.name) {
                         let b: Vec<u8> = tape.iter().map(|v| *v as u8).collect();
-                        let _ = std::fs::write(corpus.join(format!("reg{:03}", n_cov)), b);
+                        let _ = std::fs::write(corpus.join(format!("reg{:05}", n_cov)), b);
                         n_cov += 1;
                     }
                 }
@@ -768,7 +810,13 @@ pub fn run_property(def: &PropDef, cfg: &RunCfg) -> Outcome {
     viols.extend(v);
     stages.push(info);
 
+    // tooling only (never used by a registered command): VERIF_STAGES=tapefuzz runs just the corpus and the coverage-guided stage
+    let only_fuzz = std::env::var("VERIF_STAGES").ok().as_deref() == Some("tapefuzz");
     for e in def.enums {
+        if only_fuzz {
+            all_exhaustive = false;
+            break;
+        }
         let mut out = run_enum(def, e, cfg, &listed);
         fallback_sample(&mut out.stats, e.exec.unwrap_or(def.exec), e.name, &listed);
         total.merge(out.stats);
@@ -782,6 +830,9 @@ pub fn run_property(def: &PropDef, cfg: &RunCfg) -> Outcome {
         }
     }
     for (i, r) in def.randoms.iter().enumerate() {
+        if only_fuzz {
+            break;
+        }
         let mut out = run_random(def, r, cfg, &listed, i as u64);
         fallback_sample(&mut out.stats, r.exec.unwrap_or(def.exec), r.name, &listed);
         total.merge(out.stats);
